@@ -87,11 +87,11 @@ fn token_mirror<const T: usize>(maxtok: usize, kmax: usize, four: bool, lazy: bo
     core::mem::forget(pa);
     core::mem::forget(blk);
 }
-kproof! { fn k02e_token_mirror_greedy_h3() { token_mirror::<6>(2, 1, false, false); } }
-kproof! { fn k02e_token_mirror_lazy_h3() { token_mirror::<6>(2, 1, false, true); } }
-kproof! { fn k02e_token_mirror_greedy_h4() { token_mirror::<6>(2, 1, true, false); } }
-kproof! { fn k02e_token_mirror_lazy_h4() { token_mirror::<6>(2, 1, true, true); } }
-kproof! { fn k02e_token_mirror_lazy_h3_t8() { token_mirror::<8>(3, 2, false, true); } }
+kproof_vp! { fn k02e_token_mirror_greedy_h3() { token_mirror::<6>(2, 1, false, false); } }
+kproof_vp! { fn k02e_token_mirror_lazy_h3() { token_mirror::<6>(2, 1, false, true); } }
+kproof_vp! { fn k02e_token_mirror_greedy_h4() { token_mirror::<6>(2, 1, true, false); } }
+kproof_vp! { fn k02e_token_mirror_lazy_h4() { token_mirror::<6>(2, 1, true, true); } }
+kproof_vp! { fn k02e_token_mirror_lazy_h3_t8() { token_mirror::<8>(3, 2, false, true); } }
 
 
 /// stored block followed by nothing: the dictionary must be driven identically by both sides (the bytes of a
@@ -123,10 +123,10 @@ fn stored_mirror(four: bool) {
     kani::cover!(n == 6, "six stored bytes");
     core::mem::forget(b2); core::mem::forget(pa); core::mem::forget(pb); core::mem::forget(blk);
 }
-kproof! { fn k02e_stored_mirror_h3() { stored_mirror(false); } }
-kproof! { fn k02e_stored_mirror_h4() { stored_mirror(true); } }
+kproof_vp! { fn k02e_stored_mirror_h3() { stored_mirror(false); } }
+kproof_vp! { fn k02e_stored_mirror_h4() { stored_mirror(true); } }
 
-kproof! {
+kproof_vp! {
     /// K04j: predict_block emits the same correction sequence as the reference build for the same text, tokens,
     /// parameters and candidate lists: walk order, nice-length cut-off, lazy rule, 3-byte distance limit, hop
     /// counting, length/distance/flag corrections are all part of the stored format
@@ -228,5 +228,75 @@ fn token_mirror_shape<const T: usize, const NT: usize>(kinds: [bool; NT], four: 
     core::mem::forget(pa);
     core::mem::forget(blk);
 }
-kproof! { fn k02e_shape_lr_greedy_h3() { token_mirror_shape::<6, 2>([false, true], false, false, 1); } }
-kproof! { fn k02e_shape_lr_lazy_h3() { token_mirror_shape::<6, 2>([false, true], false, true, 1); } }
+kproof_vp! { fn k02e_shape_lr_greedy_h3() { token_mirror_shape::<6, 2>([false, true], false, false, 1); } }
+kproof_vp! { fn k02e_shape_lr_lazy_h3() { token_mirror_shape::<6, 2>([false, true], false, true, 1); } }
+
+/// ONE block of ONE token from an ARBITRARY common pre-state (cursor at P0 inside the text, any pending lazy match,
+/// any token counter): the inductive step of the block/token mirror.  Both sides start from the same state because
+/// after every mirrored block they are in the same state (positions equal, dictionary updates equal, checked below);
+/// a side that carries state across the block boundary which the other side resets is caught here.
+fn token_step<const T: usize, const P0: usize>(is_ref: bool, four: bool, lazy: bool, kmax: usize) {
+    let text: [u8; T] = kani::any();
+    let p = any_predictor_params();
+    kani::assume(matches!(p.matching_type, crate::preflate_parse_config::MatchingType::Lazy { .. }) == lazy);
+    let m = ModelChain::any(T, kmax, if four { 4 } else { 3 });
+    let bt = if kani::any() { BlockType::StaticHuff } else { BlockType::DynamicHuff };
+    let mut blk = PreflateTokenBlock::new(bt);
+    let mut pos = P0;
+    if is_ref {
+        let l: usize = kani::any();
+        let d: usize = kani::any();
+        kani::assume(valid_reference(&text[..], pos, l, d));
+        blk.tokens.push(PreflateToken::new_reference(l as u32, d as u32, false));
+        pos += l;
+    } else {
+        blk.tokens.push(PreflateToken::Literal(text[pos]));
+        pos += 1;
+    }
+    let last = pos == T;
+    // common pre-state
+    let pend: Option<PreflateTokenReference> = if kani::any() {
+        let l: usize = kani::any();
+        let d: usize = kani::any();
+        kani::assume(valid_reference(&text[..], P0, l, d));
+        Some(PreflateTokenReference::new(l as u32, d as u32, false))
+    } else { None };
+    let cnt: u32 = kani::any();
+    kani::assume(cnt <= 3);
+    let mut rec = Rec::new();
+    let mut pa = mk_predictor(&text[..], &p, m, four);
+    pa.input.advance(P0 as u32);
+    pa.pending_reference = pend;
+    pa.current_token_count = cnt;
+    unsafe { UPD_SIDE = 0; }
+    let r = pa.predict_block(&blk, &mut rec, last);
+    let ok = r.is_ok();
+    if ok {
+        let mut pb = mk_predictor(&text[..], &p, m, four);
+        pb.input.advance(P0 as u32);
+        pb.pending_reference = pend;
+        pb.current_token_count = cnt;
+        unsafe { UPD_SIDE = 1; }
+        let rb = pb.recreate_block(&mut rec);
+        assert!(rb.is_ok(), "recreate_block fails on corrections predict_block produced");
+        let b2 = rb.unwrap();
+        assert!(b2.block_type == blk.block_type, "block type changed");
+        assert!(b2.tokens.len() == 1, "token count changed");
+        assert!(b2.tokens[0] == blk.tokens[0], "token changed in reconstruction");
+        assert!(pb.input.pos() as usize == pos && pa.input.pos() as usize == pos);
+        assert!(pb.pending_reference == pa.pending_reference && pb.current_token_count == pa.current_token_count, "the two sides leave the block in different states");
+        assert!(rec.fully_consumed(), "reconstruction did not consume the corrections exactly");
+        assert!(same_dictionary_updates(), "analysis and reconstruction inserted different positions into the dictionary");
+        core::mem::forget(b2);
+        core::mem::forget(pb);
+    }
+    kani::cover!(ok && pend.is_some(), "mirrored with a pending lazy match in the pre-state");
+    kani::cover!(!ok, "predict_block reports Err");
+    core::mem::forget(r);
+    core::mem::forget(pa);
+    core::mem::forget(blk);
+}
+kproof_vp! { fn k02e_step_lit_lazy_h3() { token_step::<6, 2>(false, false, true, 1); } }
+kproof_vp! { fn k02e_step_ref_lazy_h3() { token_step::<6, 2>(true, false, true, 1); } }
+kproof_vp! { fn k02e_step_lit_greedy_h3() { token_step::<6, 2>(false, false, false, 1); } }
+kproof_vp! { fn k02e_step_ref_greedy_h3() { token_step::<6, 2>(true, false, false, 1); } }
